@@ -43,7 +43,7 @@ ASSUMPTIONS = [
 ]
 REQUIRED_COUNTERS = [
     "rkht_v1", "rkht_v21", "rot_cert_block_1", "rot_cert_block_21", "rot_srk_table_ahab", "rot_srk_table_hab",
-    "pfr_rotkh", "rotmeta", "dc_hash", "ahab_srktable", "hab_srktable", "cli", "form_invariance", "order_sensitivity",
+    "pfr_rotkh", "pfr_rotkh_value", "rotmeta", "dc_hash", "ahab_srktable", "hab_srktable", "cli", "form_invariance", "order_sensitivity",
     "used_index_invariance", "cb_v1_roundtrip", "cb_v21_roundtrip", "isk_signature", "fresh_process", "leading_zero_keys",
 ]
 CASE_TIMEOUT_S = 1800
@@ -770,6 +770,16 @@ def eval_dc(ctx, workload: str, kms: list, rng: random.Random, lz: str = "") -> 
 
 
 # --------------------------------------------------------------------------- certificate block v1
+def _any_record_order(cfg: dict, rng) -> dict:
+    """The same configuration with its records written in another order (a YAML mapping has none): the slot of a root
+    certificate is the NUMBER in its key, not the position of the record."""
+    if rng.random() < 0.4:
+        return cfg
+    items = list(cfg.items())
+    rng.shuffle(items)
+    return dict(items)
+
+
 def run_cb_v1(case, ctx) -> None:
     from spsdk.crypto.certificate import Certificate
     from spsdk.utils.crypto.cert_blocks import CertBlockV1
@@ -829,7 +839,7 @@ def run_cb_v1(case, ctx) -> None:
             cfg[f"rootCertificate{idx}File"] = cert_paths[0] if idx == used else km.files[core.pick(rng, ["ca.pem", "ca.der", "nonca.pem", "nonca.der"])]
         for i, p in enumerate(cert_paths[1:]):
             cfg[f"chainCertificate{used}File{i}"] = p
-        return CertBlockV1.from_config(cfg)
+        return CertBlockV1.from_config(_any_record_order(cfg, rng))
 
     st, cb = attempt(build_api if case["via"] == "api" else build_cfg)
     if st != "ok":
@@ -977,7 +987,7 @@ def run_cb_v21(case, ctx) -> None:
                 with open(p, "wb") as f:
                     f.write(user_data)
                 cfg["iskCertData"] = p
-        return CertBlockV21.from_config(cfg)
+        return CertBlockV21.from_config(_any_record_order(cfg, rng))
 
     st, cb = attempt(build_api if via == "api" else build_cfg)
     if st != "ok":
@@ -1200,9 +1210,49 @@ def run_process(case, ctx) -> None:
         ctx.ok(["process", case["k"]], n=good, sample={"jobs": len(jobs), "agree": good, "first": metas[0], "hash": outs[0][0][0]})
 
 
+def eval_pfr_value(ctx, kms: list) -> None:
+    """The RoT hash handed to the CMPA as a VALUE (``export(rotkh=...)`` - what `pfr generate-binary` does with a binary
+    certificate block - and the hexadecimal string pasted into the configuration): in every PFR family the ROTKH field of
+    the exported page is the hash, left aligned and zero padded to the width of the register."""
+    from spsdk.pfr.pfr import CMPA
+
+    info = db_info()
+    keys = [k.key for k in kms]
+    for fam in info["pfr"]:
+        t = info["fam_type"][fam]
+        try:
+            h = ref.v1_rkth(keys) if t == "cert_block_1" else ref.v21_rkth(keys)
+        except ref.Unsupported:
+            continue
+        for how in ("export-argument", "configuration-string"):
+            c = CMPA(family=fam)
+            reg = c.registers.find_reg("ROTKH")
+            width = reg.width // 8
+            if len(h) > width:
+                continue
+            try:
+                if how == "export-argument":
+                    blob = c.export(rotkh=h, draw=False)
+                else:
+                    c.set_config({"ROTKH": h.hex()})
+                    blob = c.export(draw=False)
+            except Exception as e:  # pylint: disable=broad-except
+                if not core.is_refusal(e) and core.origin_of(e) != "repo":
+                    raise
+                ctx.violation(f"pfr-rotkh-value/{how}:{type(e).__name__}", {"family": fam, "hash_len": len(h), "exception": core.exc_brief(e)})
+                continue
+            ctx.count("pfr_rotkh_value")
+            field = blob[reg.offset:reg.offset + width]
+            if field != h.ljust(width, b"\x00"):
+                ctx.violation(f"pfr-rotkh-value-misplaced:{how}", {"family": fam, "hash_len": len(h), "register_bytes": width,
+                                                                  "field": field, "hash": h})
+
+
 def run_keyset(case, ctx) -> None:
     rng = ctx.rng
     kms = [KM.pool(x, ctx.workdir) for x in case["keys"]]
+    if case.get("pfr_value"):
+        eval_pfr_value(ctx, kms)
     paths = build_paths(ctx, kms, rng, case.get("fams", 1), with_cli=case.get("cli", True))
     only = case.get("only_forms")
     if only:  # directed witness: exactly these input forms, at every position
@@ -1265,8 +1315,9 @@ def cases(tier, seed):
             orders = list(itertools.permutations(base)) if n <= 3 else [tuple(base), tuple(reversed(base))]
             if not thorough:
                 orders = orders[:1] if n != 2 else orders[:2]
-            for o in orders:
-                yield {"kind": "keyset", "keys": list(o), "forms": forms, "fams": fams, "cli": True}
+            for j, o in enumerate(orders):
+                yield {"kind": "keyset", "keys": list(o), "forms": forms, "fams": fams, "cli": True,
+                       "pfr_value": j == 0 and kind != "p521" and (thorough or n in (1, 4))}
             extra = (6 if n == 4 else 3) if thorough else (1 if n == 4 else 0)
             for _ in range(extra):
                 yield {"kind": "keyset", "keys": rng.sample(pool, n), "forms": forms, "fams": fams, "cli": thorough}
